@@ -12,6 +12,7 @@ OP_OWNER = {
     "new": ["C08"], "select": ["C08"], "drop": ["C08"], "slice": ["C08"], "copy": ["C08"],
     "equals": ["C09"],
     "wf": ["C10"],
+    "sortadv": ["C03"],
     "csvraw": ["C12"], "csvread": ["C12"],
     "csvfault": ["C15"], "csvreadfault": ["C15"],
 }
@@ -37,7 +38,9 @@ PROPS = {
     "C02": {"lean": ["QF.Props.C02"],
             "sections": [hist("hist", ["filter"]),
                          {"section": "hist", "tag": "hist-filter", "opt": "ops=filter+filter+filter+filter+sort+slice+distinct", "quick": 400, "thorough": 4000, "cover_ops": {"filter"}}]},
-    "C03": {"lean": ["QF.Props.C03"], "sections": [hist("hist", ["sort"])]},
+    "C03": {"lean": ["QF.Props.C03"],
+            "sections": [hist("hist", ["sort"]),
+                         {"section": "sortadv", "quick": 300, "thorough": 3000, "cover_ops": {"SA"}}]},
     "C04": {"lean": ["QF.Props.C04"], "sections": [hist("hist", ["groupagg", "groupframes"])]},
     "C05": {"lean": ["QF.Props.C04"], "extra_ns": ["QF.Props.C04"], "sections": [hist("hist", ["distinct"])]},
     "C06": {"lean": ["QF.Props.C06"], "sections": [hist("hist", ["apply", "fapply", "rownums"])]},
